@@ -126,6 +126,9 @@ def strategy(tier):
             "j": st.integers(0, 7),
         }),
         "selfkey": st.integers(0, 7),
+        # keys of the substitution map that are equal to, but not the same objects as, the symbols in the
+        # expression (sympy's symbol cache is a bounded LRU cache; here it is cleared explicitly)
+        "fresh_key_objects": st.sampled_from([False, False, False, True]),
     })
 
 
@@ -650,6 +653,11 @@ def check_commute(e, d, tree, desc, labels, nontrivial):
     if not pairs:
         labels.append("map:empty")
         return None
+    if desc.get("fresh_key_objects"):
+        from sympy.core.cache import clear_cache  # noqa: PLC0415
+
+        clear_cache()
+        labels.append("map:key_objects_equal_but_not_identical")
     mapping = {G.build(k): G.build(v, under_test) for k, v, _ in pairs}
     if mode == "xreplace":
         lhs = _ut("xreplace", e.xreplace, mapping)
